@@ -33,7 +33,7 @@ BUDGET = {
     "quick": dict(examples=300, shards=16, seconds=240, exhaustive=True, exhaustive_shards=8),
     "thorough": dict(examples=800, shards=16, seconds=1500, exhaustive=True, exhaustive_shards=16),
 }
-ESSENTIAL_LABELS = {t: ["op:remove_in_edges", "op:intervene", "isolated-node", "cyclic"] for t in ("quick", "thorough")}
+ESSENTIAL_LABELS = {t: ["op:remove_in_edges", "op:intervene", "isolated-node", "cyclic", "built-incrementally"] for t in ("quick", "thorough")}
 EXHAUSTIVE_NOTE = "all mixed graphs on nodes A,B (and all on A,B,C in thorough; directed cycles allowed) x all node subsets x every surgery operation and query, as one-step histories"
 
 SURGERY = ["subgraph", "remove_in_edges", "remove_out_edges", "remove_nodes_from"]
@@ -76,6 +76,22 @@ class World:
             real2 = build_graph(reinsert(g))
             if not (real == real2 and real2 == real):
                 return {"kind": "insertion-order-equality", "op": op}
+            if op.get("inc") and all(u != v for u, v in g["di"]):
+                # the same graph grown with add_* calls and read-only queries in between; every later query and surgery
+                # of this history runs on that object, so a stale cache inside the graph shows up against the model
+                from ..y0util import build_graph_incremental
+
+                try:
+                    real3 = build_graph_incremental(g, strict_probes=True)
+                except Exception as e:  # a read-only query failed on an intermediate state of a growing graph
+                    return {"kind": "query-raised-during-incremental-construction", "op": op, "exc": repr(e)[:300]}
+                bad = self._compare(real3, model, {**op, "how": "incremental"}, None)
+                if bad:
+                    return bad
+                if not (real == real3 and real3 == real):
+                    return {"kind": "incremental-construction-differs", "op": op}
+                real = real3
+                self.labels.add("built-incrementally")
             self.pool.append((real, model))
             touched = {x for e in g["di"] + g["bi"] for x in e}
             if set(g["nodes"]) - touched:
@@ -347,13 +363,13 @@ def custom_shard(tier, hseed, n_examples, seconds, record, t0):
                 failure["detail"] = bad
                 raise AssertionError(jdump(bad)[:400])
 
-        @initialize(g=gen.admgs(1, 5, cyclic=True))
-        def init(self, g):
-            self._do({"op": "build", "g": g})
+        @initialize(g=gen.admgs(1, 5, cyclic=True), inc=st.booleans())
+        def init(self, g, inc):
+            self._do({"op": "build", "g": g, "inc": inc})
 
-        @rule(g=st.one_of(gen.admgs(1, 5, cyclic=True), gen.admgs(1, 5)))
-        def build(self, g):
-            self._do({"op": "build", "g": g})
+        @rule(g=st.one_of(gen.admgs(1, 5, cyclic=True), gen.admgs(1, 5)), inc=st.booleans())
+        def build(self, g, inc):
+            self._do({"op": "build", "g": g, "inc": inc})
 
         @rule(kind=st.sampled_from(SURGERY), t=idx, s=subset)
         def surgery(self, kind, t, s):
